@@ -26,6 +26,7 @@ from typing import Any, Callable, Iterable, Optional
 
 VERIF = os.path.dirname(os.path.dirname(os.path.abspath(__file__)))
 PKG_ROOT = os.environ.get('VERIF_PACKAGE_ROOT', '/repo')
+OUT = os.environ.get('VERIF_OUT', VERIF)      # evidence / new replays (redirected by the mutant driver)
 DEPS = os.path.join(VERIF, '.deps')
 if os.path.isdir(os.path.join(DEPS, 'hypothesis')):
     sys.path.insert(0, DEPS)
@@ -273,14 +274,14 @@ def run_replays(mod, tier, findings, only: Optional[str] = None):
 
 
 def write_replay(pid, part_name, sig, msg, case):
-    rdir = os.path.join(VERIF, 'replays', pid)
+    rdir = os.path.join(OUT, 'replays', pid)
     os.makedirs(rdir, exist_ok=True)
     name = sig.replace('/', '_').replace(' ', '_')[:80] + f'-{chash(case):016x}.json'
     path = os.path.join(rdir, name)
     with open(path, 'w') as fh:
         json.dump({'property': pid, 'part': part_name, 'signature': sig, 'message': msg,
                    'case': case}, fh, indent=1, sort_keys=True, default=repr)
-    return os.path.relpath(path, VERIF)
+    return os.path.relpath(path, OUT)
 
 
 def main(argv):
@@ -409,8 +410,8 @@ def main(argv):
         'violations': len(out_viol),
     }
     try:
-        os.makedirs(os.path.join(VERIF, 'evidence'), exist_ok=True)
-        with open(os.path.join(VERIF, 'evidence', f'{pid}.json'), 'w') as fh:
+        os.makedirs(os.path.join(OUT, 'evidence'), exist_ok=True)
+        with open(os.path.join(OUT, 'evidence', f'{pid}.json'), 'w') as fh:
             json.dump(ev, fh, indent=1, default=repr)
     except Exception:
         traceback.print_exc()
